@@ -41,7 +41,8 @@ def c_threads(desc, uses):
     import c19_impl as I
     out = []
     for kind, tgt in uses:
-        out.append(f"({cbool(kind in ('inst', 'helper'))}, {cbool(kind == 'fields')}, {I.model_tgt(desc, tgt)})")
+        out.append(f"({cbool(kind in ('inst', 'instkw', 'helper'))}, {cbool(kind in ('fields', 'dcfields'))}, "
+                   f"{I.model_tgt(desc, tgt)})")
     return clist(out)
 
 
@@ -54,10 +55,18 @@ def c_case(desc, uses, events, eager, lazy, out_e, out_l, metas):
 
 # ------------------------------------------------------------------ generation of class descriptions
 def gen_desc(rng, tier, force=None):
+    """force: None | "zero" (a root class without any managed attribute, first in the chain) |
+    "mid" (plain classes between the lazily decorated ones) | "names" (attribute names that are
+    parameter names of the library's own wrappers)"""
+    import c19_impl as I
     k = rng.choice([1, 2, 2, 3] if tier == "thorough" else [1, 2, 2])
+    if force == "mid":
+        k = rng.choice([2, 2, 3])
     classes, visible = [], {}
     for i in range(k):
-        nat = rng.randint(1, 3 if tier == "thorough" else 2)
+        nat = rng.choice([0, 1, 1, 2, 2, 3] if tier == "thorough" else [0, 1, 1, 2, 2])
+        if force == "zero" and (i == 0 or rng.random() < 0.5):
+            nat = 0
         names = rng.sample(range(5), nat)
         attrs = []
         for n in names:
@@ -77,8 +86,12 @@ def gen_desc(rng, tier, force=None):
             visible[n] = typ
             attrs.append([n, form, dk, ini, rep, cmp_, typ])
         c = {"attrs": attrs, "key": None, "frozen": False, "new": rng.random() < 0.3}
-        if rng.random() < 0.35:  # decorator-level do_not_copy: names visible in this class (own or inherited)
+        if visible and rng.random() < 0.35:  # decorator-level do_not_copy: names visible in this class (own or inherited)
             c["dnc"] = sorted(rng.sample(sorted(visible), rng.randint(1, min(2, len(visible)))))
+        if rng.random() < (0.6 if nat == 0 else 0.15):
+            c["priv"] = True  # a private annotation (`_cache: dict = None`), not managed
+        if i + 1 < k and (force == "mid" and (i == 0 or rng.random() < 0.5) or force != "mid" and rng.random() < 0.25):
+            c["mid"] = {"new": rng.random() < 0.3}  # plain class M<i>(C<i>) between C<i> and C<i+1>
         classes.append(c)
     # a key needs a default so that C() works: only plain int attributes of the class itself
     for c in classes:
@@ -86,11 +99,21 @@ def gen_desc(rng, tier, force=None):
         if plain and rng.random() < 0.25:
             c["key"] = rng.choice(plain)
             break
-    sub = {"new": rng.random() < 0.5} if rng.random() < 0.4 else None
-    return {"classes": classes, "sub": sub}
+    sub = {"new": rng.random() < 0.5} if rng.random() < (0.6 if force == "zero" else 0.4) else None
+    d = {"classes": classes, "sub": sub}
+    if force == "names" or rng.random() < 0.3:
+        names = list(I.NAMES)
+        used = sorted(visible) or [0]
+        pool = rng.sample(I.COLLIDING, len(I.COLLIDING))
+        if force == "names" or rng.random() < 0.5:
+            pool = ["cls"] + [x for x in pool if x != "cls"]
+        for pos, nm in zip(rng.sample(used, min(len(used), rng.randint(1, 3))), pool):
+            names[pos] = nm
+        d["names"] = names
+    return d
 
 
-USE_KINDS = ["inst", "meta", "fields", "helper"]
+USE_KINDS = ["inst", "instkw", "meta", "fields", "dcfields", "helper"]
 
 
 def valid(desc, uses):
@@ -105,11 +128,11 @@ def valid(desc, uses):
     return all(o[0] == 1 for o in outs)
 
 
-def gen_valid(rng, tier, nthreads=None):
+def gen_valid(rng, tier, nthreads=None, force=None):
+    import c19_impl as I
     for _ in range(200):
-        d = gen_desc(rng, tier)
-        k = len(d["classes"])
-        every = [[kind, t] for kind in USE_KINDS for t in list(range(k)) + (["sub"] if d["sub"] else [])]
+        d = gen_desc(rng, tier, force)
+        every = [[kind, t] for kind in USE_KINDS for t in I.targets_of(d)]
         if not valid(d, every):
             continue
         return d
@@ -117,11 +140,11 @@ def gen_valid(rng, tier, nthreads=None):
 
 
 def gen_uses(rng, desc, nthreads):
-    k = len(desc["classes"])
+    import c19_impl as I
     uses = []
     for _ in range(nthreads):
         kind = rng.choice(USE_KINDS)
-        tgts = list(range(k)) + (["sub"] if desc["sub"] else [])
+        tgts = I.targets_of(desc)
         # mostly the leaf (so that parents are bootstrapped through the child), sometimes a parent first
         tgt = rng.choice(tgts) if rng.random() < 0.4 else tgts[-1]
         uses.append([kind, tgt])
@@ -162,7 +185,7 @@ def run_one(job):
             _EAGER.clear()
         _EAGER[key] = (out_e, eager, metas, dict(intern.d))
     r, out_l, lazy, k = I.run_lazy(desc, uses, policy_of(pol), intern)
-    events = I.extract(r["log"], k, st["scm"].__file__)
+    events = I.extract(r["log"], k, st["scm"].__file__, I.names_of(desc))
     term = c_case(desc, uses, events, eager, lazy, out_e, out_l, metas)
     h = hashlib.sha1(term.encode()).hexdigest()[:20]
     first = h not in _SENT
@@ -344,16 +367,34 @@ def shrink(desc, uses, pol, code, pool, rng):
         cands = []
         for ci, c in enumerate(d["classes"]):
             for ai in range(len(c["attrs"])):
-                if len(c["attrs"]) > 1 or len(d["classes"]) > 1:
+                if True:  # classes without managed attributes are part of the grammar
                     d2 = json.loads(json.dumps(d))
                     del d2["classes"][ci]["attrs"][ai]
                     if d2["classes"][ci]["key"] is not None and d2["classes"][ci]["key"] not in [a[0] for a in d2["classes"][ci]["attrs"]]:
                         d2["classes"][ci]["key"] = None
                     cands.append((d2, u))
+                    if d2["classes"][ci].get("dnc"):
+                        gone = c["attrs"][ai][0]
+                        still = {a[0] for cc in d2["classes"][:ci + 1] for a in cc["attrs"]}
+                        if gone not in still:
+                            d2["classes"][ci]["dnc"] = [n for n in d2["classes"][ci]["dnc"] if n != gone]
             if c.get("new"):
                 d2 = json.loads(json.dumps(d))
                 d2["classes"][ci]["new"] = False
                 cands.append((d2, u))
+            if c.get("mid") is not None and not any(x[1] == f"m{ci}" for x in u):
+                d2 = json.loads(json.dumps(d))
+                d2["classes"][ci]["mid"] = None
+                cands.append((d2, u))
+            if c.get("priv") or c.get("dnc"):
+                d2 = json.loads(json.dumps(d))
+                d2["classes"][ci].pop("priv", None)
+                d2["classes"][ci].pop("dnc", None)
+                cands.append((d2, u))
+        if d.get("names"):
+            d2 = json.loads(json.dumps(d))
+            d2.pop("names")
+            cands.append((d2, u))
         if d["sub"] and not any(x[1] == "sub" for x in u):
             d2 = json.loads(json.dumps(d))
             d2["sub"] = None
@@ -463,13 +504,17 @@ def main2(tier, replay, pool):
     # 1. sequential trigger independence: every trigger kind x every target, one thread
     n_seq = 25 if quick else 150
     js, ms = [], []
-    for _ in range(n_seq):
-        d = gen_valid(rng, tier)
+    import c19_impl as I
+    # every fourth description each: a root class without managed attributes / plain classes between
+    # the lazily decorated ones / attribute names colliding with the library's wrapper parameters
+    forces = [None, "zero", "mid", "names"]
+    for si in range(n_seq):
+        d = gen_valid(rng, tier, force=forces[si % 4])
         k = len(d["classes"])
         for kind in USE_KINDS:
-            for tgt in list(range(k)) + (["sub"] if d["sub"] else []):
+            for tgt in I.targets_of(d):
                 js.append((d, [[kind, tgt]], {"kind": "preempt", "first": 0, "switch": []}))
-                ms.append(("seq", 1))
+                ms.append(("seq" if forces[si % 4] is None else "seq-" + forces[si % 4], 1))
         # a parent used first, then the child
         if k > 1:
             for kind in USE_KINDS:
@@ -501,6 +546,15 @@ def main2(tier, replay, pool):
             d = {"classes": [{"attrs": [[0, "attr", 2, False, False, False, "int"], [1, "plain", 0, True, True, True, "int"]],
                               "key": None, "frozen": False, "new": False}], "sub": None}
             u = [["inst", 0], ["meta", 0]]
+        elif ci == 1:  # two threads whose first use is the fields lookup on a class without managed attributes
+            d = gen_valid(rng, tier, force="zero")
+            u = [["fields", 0], [rng.choice(["fields", "dcfields", "meta", "instkw"]), I.targets_of(d)[-1]]]
+        elif ci == 2:  # a plain class between two lazy spec classes; the child is used before the parent was
+            d = gen_valid(rng, tier, force="mid")
+            u = [[rng.choice(USE_KINDS), I.targets_of(d)[-1]], [rng.choice(USE_KINDS), rng.choice(I.targets_of(d)[:2])]]
+        elif ci == 3:  # constructor keywords named like the wrappers' parameters, from two threads
+            d = gen_valid(rng, tier, force="names")
+            u = [["instkw", I.targets_of(d)[-1]], [rng.choice(USE_KINDS), rng.choice(I.targets_of(d))]]
         if time.time() > deadline:
             truncated.append(f"configuration {ci}")
             continue
@@ -561,7 +615,7 @@ def main2(tier, replay, pool):
             "compared": "protocol event trace (placeholder tests, lock acquire/release with depth, re-check, body entry, declaration reads/consumption, publish, registration, wrapper removal, __new__ lookups) vs model trace for the same schedule; eager metadata vs model seq_meta; oracle: final class descriptions + thread outcomes vs eager reference",
         },
         "evaluations": len(jobs), "distinct_nontrivial": distinct,
-        "rule": "evaluations = (class description, thread uses, schedule) runs on the implementation; identical resulting Coq case terms are evaluated once (distinct_nontrivial); every case has >= 1 trigger and a class with >= 1 declared attribute; distinct configurations = %d" % distinct_cfg,
+        "rule": "evaluations = (class description, thread uses, schedule) runs on the implementation; identical resulting Coq case terms are evaluated once (distinct_nontrivial); every case has >= 1 trigger (classes without managed attributes are part of the grammar); distinct configurations = %d" % distinct_cfg,
         "samples": [{"classes": jobs[i][0], "uses": jobs[i][1], "policy": jobs[i][2]} for i in (0, len(jobs) // 2, len(jobs) - 1)],
         "timing_s": {"implementation_runs": round(t_run, 1), "coq_evaluation": round(t_eval, 1)},
         "exhaustive": False,
